@@ -29,7 +29,8 @@ CONSTANTS
     Folds,       \* set of <<fstart, fend>>
     Modes,       \* set of [markov : BOOLEAN, warmup : Int]
     Delays,      \* set of execution delays
-    EpLens,      \* set of episode lengths (0 = whole fold)
+    EpLens,      \* set of episode lengths configured at construction (0 = whole fold)
+    ResetLens,   \* set of episode_length arguments passed to reset() (0 = none; k >= 2 means k states = k - 1 decisions)
     Spaces,      \* subset of {"box", "discrete"}
     Bads,        \* set of [at : Nat, cls : STRING]: a malformed action of class cls submitted at step `at` (at = 0: none)
     DayLen,      \* time units per calendar day (86400 when times are seconds; finer units for sub-second lattices)
@@ -89,7 +90,7 @@ FreshEnv(steps) ==
      queue |-> [i \in 1..cfg.delay |-> [id |-> 0, cls |-> IF cfg.space = "discrete" /\ NullRule = "float"
                                                              THEN "null_float" ELSE "ok"]],
      books |-> [c \in Contracts |-> [bid |-> 0, ask |-> 0, alive |-> TRUE]],
-     done |-> FALSE, dead |-> FALSE, j |-> 0]
+     done |-> FALSE, dead |-> FALSE, j |-> 0, eplen |-> 0]
 
 -----------------------------------------------------------------------------
 Call(rec) == /\ hist' = Append(hist, rec)
@@ -97,9 +98,13 @@ Call(rec) == /\ hist' = Append(hist, rec)
 
 \* reset as a pure function of (cfg, start); the action binds it once through a singleton set
 \* (TLC re-evaluates LET definitions for every reference inside an action)
-ResetF(start) ==
-    LET steps == EpisodeSteps(cfg, cfg.fsteps, start)
-        e0 == FreshEnv(steps)
+\* episode length in decisions in force for a reset: the argument of reset() wins over the constructor's
+EffLen(rl) == IF rl > 0 THEN rl - 1 ELSE cfg.eplen
+CfgFor(rl) == [cfg EXCEPT !.eplen = EffLen(rl)]
+
+ResetF(start, rl) ==
+    LET steps == EpisodeSteps(CfgFor(rl), cfg.fsteps, start)
+        e0 == [FreshEnv(steps) EXCEPT !.eplen = EffLen(rl)]
         b  == Batch(cfg, cfg.part, steps, 1)
         e1 == [e0 EXCEPT !.k = 1]
         hist0 == IF HistoryOrder = "by_time" THEN SortEv(b.L \o b.N) ELSE b.L \o b.N
@@ -108,25 +113,26 @@ ResetF(start) ==
         s2 == Notify([env |-> e2, log |-> s1.log], EnvEvent("reset", e2.now), 0, FALSE)
     IN  IF e2.done THEN Notify(s2, EnvEvent("done", s2.env.now), 0, FALSE) ELSE s2
 
-DoReset(start) ==
-    \E s3 \in {ResetF(start)} :
+DoReset(start, rl) ==
+    \E s3 \in {ResetF(start, rl)} :
         /\ env' = s3.env
         /\ elog' = s3.log
         /\ execs' = <<>>
         /\ ret' = [call |-> 0, out |-> "ok", done |-> s3.env.done, now |-> s3.env.now]
-        /\ Call([call |-> "reset", start |-> start, act |-> [id |-> 0, cls |-> "ok"], out |-> "ok",
+        /\ Call([call |-> "reset", start |-> start, act |-> [id |-> rl, cls |-> "ok"], out |-> "ok",
                  done |-> s3.env.done, now |-> s3.env.now, log |-> s3.log, exec |-> <<>>])
 
 Reset ==
     /\ ncalls < MaxCalls
     /\ (ResetAnywhere \/ env.k = 0 \/ env.done \/ env.dead)
-    /\ IF ValidStarts(cfg, cfg.fsteps) = {} \/ cfg.fsteps = <<>>
-       THEN \* refused: nothing changes
-            /\ UNCHANGED <<env, elog, execs>>
-            /\ ret' = [call |-> 0, out |-> "error", done |-> FALSE, now |-> NoTime]
-            /\ Call([call |-> "reset", start |-> 0, act |-> [id |-> 0, cls |-> "ok"], out |-> "error",
-                     done |-> FALSE, now |-> NoTime, log |-> <<>>, exec |-> <<>>])
-       ELSE \E start \in ValidStarts(cfg, cfg.fsteps) : DoReset(start)
+    /\ \E rl \in ResetLens :
+         IF ValidStarts(CfgFor(rl), cfg.fsteps) = {} \/ cfg.fsteps = <<>>
+         THEN \* refused: nothing changes
+              /\ UNCHANGED <<env, elog, execs>>
+              /\ ret' = [call |-> 0, out |-> "error", done |-> FALSE, now |-> NoTime]
+              /\ Call([call |-> "reset", start |-> 0, act |-> [id |-> rl, cls |-> "ok"], out |-> "error",
+                       done |-> FALSE, now |-> NoTime, log |-> <<>>, exec |-> <<>>])
+         ELSE \E start \in ValidStarts(CfgFor(rl), cfg.fsteps) : DoReset(start, rl)
     /\ UNCHANGED cfg
 
 \* the j-th step of the episode submits action j (class ok unless it is the configured malformed one)
@@ -203,7 +209,7 @@ Init ==
     /\ Advancing(cfg)
     /\ env = [steps |-> <<>>, k |-> 0, pendL |-> <<>>, pendN |-> <<>>, now |-> NoTime, lastEv |-> NoTime,
               queue |-> <<>>, books |-> [c \in Contracts |-> [bid |-> 0, ask |-> 0, alive |-> TRUE]],
-              done |-> FALSE, dead |-> FALSE, j |-> 0]
+              done |-> FALSE, dead |-> FALSE, j |-> 0, eplen |-> 0]
     /\ elog = <<>>
     /\ execs = <<>>
     /\ ret = [call |-> 0, out |-> "none", done |-> FALSE, now |-> NoTime]
@@ -320,21 +326,23 @@ Consecutive ==
     Running => /\ \A i \in 1..Len(Steps) : Steps[i] \in FoldBearing
                /\ \A i \in 1..(Len(Steps) - 1) :
                     Steps[i] < Steps[i + 1] /\ ~\E b \in FoldBearing : Steps[i] < b /\ b < Steps[i + 1]
-               /\ cfg.eplen = 0 => Cardinality(FoldBearing) = Len(Steps)
+               /\ env.eplen = 0 => Cardinality(FoldBearing) = Len(Steps)
 
 \* an episode of n decisions: the n-th step (and only it) reports done
 ExactLength ==
-    (Running /\ cfg.eplen > 0) =>
-        /\ Len(Steps) = cfg.eplen + 1
-        /\ (ret.out = "ok" /\ ret.call > 0) => (ret.done <=> ret.call = cfg.eplen)
+    (Running /\ env.eplen > 0) =>
+        /\ Len(Steps) = env.eplen + 1
+        /\ (ret.out = "ok" /\ ret.call > 0) => (ret.done <=> ret.call = env.eplen)
         /\ (ret.out = "ok" /\ ret.call = 0) => ~ret.done
 
 \* every position where the whole episode fits is offered to the draw, and no other; refused when none
 StartSetExact ==
-    /\ ValidStarts(cfg, cfg.fsteps) =
-          (IF cfg.eplen = 0 THEN {1} ELSE {s \in 1..Len(cfg.fsteps) : s + cfg.eplen <= Len(cfg.fsteps)})
+    /\ \A rl \in ResetLens :
+          ValidStarts(CfgFor(rl), cfg.fsteps) =
+            (IF EffLen(rl) = 0 THEN {1} ELSE {s \in 1..Len(cfg.fsteps) : s + EffLen(rl) <= Len(cfg.fsteps)})
     /\ (Len(hist) > 0 /\ LastOf(hist).call = "reset") =>
-          (LastOf(hist).out = "error" <=> (cfg.fsteps = <<>> \/ ValidStarts(cfg, cfg.fsteps) = {}))
+          (LastOf(hist).out = "error" <=>
+              (cfg.fsteps = <<>> \/ ValidStarts(CfgFor(LastOf(hist).act.id), cfg.fsteps) = {}))
 
 \* no step without reset, none after the end
 DoneIsAbsorbing ==
